@@ -50,8 +50,10 @@ def _replay(lines, families, asrt, lockstep, repo, procs=16):
     with core.pool(ops_replay.worker_init, (repo, asrt), procs) as p:
         size = max(50, min(2000, len(lines) // (procs * 4) + 1))
         parts = p.map(ops_replay.replay_chunk, [(ch, families, lockstep) for ch in core.chunks(lines, size)])
-    tot = {"n": 0, "same": 0, "known": {}, "attention": [], "per_family": {}, "recursion": 0, "lockstep_diff": []}
+    tot = {"n": 0, "same": 0, "known": {}, "attention": [], "per_family": {}, "recursion": 0, "lockstep_diff": [],
+           "dropped": 0}
     for r in parts:
+        tot["dropped"] += r["dropped"]
         tot["n"] += r["n"]
         tot["same"] += r["same"]
         tot["recursion"] += r["recursion"]
